@@ -37,7 +37,7 @@ func init() {
 			"Not decided: that a waiter returns exactly the peers whose status changed (functional content of the diff), fairness/promptness in real time, data races that are not lost wake-ups, behaviour of code that reaches these objects through reflection or unsafe; lock identity is per class, not per instance.",
 		Trusted:     []string{"go/ssa (x/tools v0.29.0)", "sync.Mutex / sync.RWMutex / channel close semantics", "lock identity by owner type + field path; notify.New argument aliasing resolved at construction sites"},
 		Assumptions: []string{"a Notify is only built by notify.New and only stored in the struct field it is constructed for; locks are not passed around as values outside the construction sites"},
-		Floors:      map[string]int{"D1": 10, "D2": 5, "D3": 25, "D4": 9, "D5": 10, "D6": 5, "D7": 6},
+		Floors:      map[string]int{"D1": 10, "D2": 5, "D3": 20, "D4": 9, "D5": 8, "D6": 5, "D7": 6},
 		Run:         runC16,
 	})
 }
@@ -221,25 +221,26 @@ type c16Flow struct {
 }
 
 type c16An struct {
-	c          *Ctx
-	w          *World
-	notifyT    *types.Named
-	fnNew      *ssa.Function
-	fnWait     *ssa.Function
-	fnBcast    *ssa.Function
-	conds      map[string]*c16Cond // by class
-	parent     map[string]string   // union-find over lock classes
-	flows      map[*ssa.Function]*c16Flow
-	acq        map[*ssa.Function]map[string]c16Acq
-	entry      map[*ssa.Function]lockSet
-	entryBusy  map[*ssa.Function]bool
-	bcast      map[*ssa.Function]map[string]bool
-	pred       map[string]map[string]bool
-	waitFns    map[*ssa.Function]bool
-	mustMemo   map[string]bool
-	mustBusy   map[string]bool
-	ifaceC     map[string][]*ssa.Function
-	unresolved []string
+	c           *Ctx
+	w           *World
+	notifyT     *types.Named
+	fnNew       *ssa.Function
+	fnWait      *ssa.Function
+	fnBcast     *ssa.Function
+	conds       map[string]*c16Cond // by class
+	parent      map[string]string   // union-find over lock classes
+	flows       map[*ssa.Function]*c16Flow
+	acq         map[*ssa.Function]map[string]c16Acq
+	entry       map[*ssa.Function]lockSet
+	entryBusy   map[*ssa.Function]bool
+	bcast       map[*ssa.Function]map[string]bool
+	pred        map[string]map[string]bool
+	waitFns     map[*ssa.Function]bool
+	waitHelpers map[*ssa.Function]bool
+	mustMemo    map[string]bool
+	mustBusy    map[string]bool
+	ifaceC      map[string][]*ssa.Function
+	unresolved  []string
 }
 
 func (a *c16An) find(x string) string {
@@ -989,6 +990,10 @@ type c16Site struct {
 	Fn   *ssa.Function
 	Call ssa.CallInstruction
 	Cond string // condition class, "" when unresolved
+	// HelperCall: the call of an unexported boolean helper that contains the Wait together with
+	// its re-check loop; the wait discipline (D3) is judged inside the helper, the call site only
+	// has to propagate a cancellation (D5)
+	HelperCall bool
 }
 
 func (a *c16An) sitesOf(target *ssa.Function) []c16Site {
@@ -1015,11 +1020,15 @@ func (a *c16An) sitesOf(target *ssa.Function) []c16Site {
 	return out
 }
 
-// waitSites: the calls of Notify.Wait, and the calls of wait wrappers: unexported module
-// functions with a single boolean result that contain such a call (a wrapper's call site is
-// a wait site of the same condition; the wrapper's own obligations cover its body).
+// waitSites: the calls of Notify.Wait, and the calls of thin wait wrappers: unexported module
+// functions with a single boolean result that contain such a call outside any re-check loop of
+// their own (a wrapper's call site is a wait site of the same condition; the wrapper's own
+// obligations cover its body). A helper whose Wait sits in a re-check loop inside the helper is
+// a complete waiter: the Wait is judged there, with the lock context of its callers (entry
+// lockset); its call sites are only D5 sites.
 func (a *c16An) waitSites() []c16Site {
 	a.waitFns = map[*ssa.Function]bool{a.fnWait: true}
+	a.waitHelpers = map[*ssa.Function]bool{}
 	sites := a.sitesOf(a.fnWait)
 	cg := a.w.callGraph()
 	for i := 0; i < len(sites) && i < 200; i++ {
@@ -1030,6 +1039,31 @@ func (a *c16An) waitSites() []c16Site {
 		}
 		res := fn.Signature.Results()
 		if res.Len() != 1 || !isBoolType(res.At(0).Type()) {
+			continue
+		}
+		if s.HelperCall {
+			continue
+		}
+		selfLoop := false
+		if call, ok := s.Call.(*ssa.Call); ok {
+			in := ssa.Instruction(call)
+			r := c16Walk(in, c16Env{map[ssa.Value]bool{call: true}, map[ssa.Value]int64{}}, a.isWaitCall)
+			for _, st := range r.Stops {
+				if st == in {
+					selfLoop = true
+				}
+			}
+		}
+		if selfLoop {
+			if !a.waitHelpers[fn] {
+				a.waitHelpers[fn] = true
+				for _, cs := range cg.callers[fn] {
+					if p := fnPkg(cs.Caller); p != nil && p.Path() == c16PkgNotify {
+						continue
+					}
+					sites = append(sites, c16Site{Fn: cs.Caller, Call: cs.Instr, Cond: s.Cond, HelperCall: true})
+				}
+			}
 			continue
 		}
 		a.waitFns[fn] = true
@@ -1049,7 +1083,7 @@ func (a *c16An) isWaitCall(in ssa.Instruction) bool {
 		return false
 	}
 	f := staticCallee(ci.Common())
-	return f != nil && a.waitFns[f]
+	return f != nil && (a.waitFns[f] || a.waitHelpers[f])
 }
 
 func c16Construct(sites []c16Site, i int, what string) string {
@@ -1609,6 +1643,9 @@ func (a *c16An) checkD3(waits, bcasts []c16Site) {
 	isWait := a.isWaitCall
 	for i, s := range waits {
 		c.analysed(s.Fn)
+		if s.HelperCall {
+			continue
+		}
 		cons := c16Construct(waits, i, "Wait")
 		in := s.Call.(ssa.Instruction)
 		call, isCall := in.(*ssa.Call)
@@ -1797,6 +1834,23 @@ func (a *c16An) staleDecisionSources(s c16Site, l string) []string {
 			visit(x.X, depth+1)
 		case *ssa.TypeAssert:
 			visit(x.X, depth+1)
+		case *ssa.Parameter:
+			// a value handed in by the callers of an unexported helper: judged where it was read
+			fn := x.Parent()
+			if c16IsRoot(a.w, fn) {
+				return
+			}
+			idx := -1
+			for i, p := range fn.Params {
+				if p == x {
+					idx = i
+				}
+			}
+			for _, cs := range a.w.callGraph().callers[fn] {
+				if args := cs.Instr.Common().Args; !cs.Instr.Common().IsInvoke() && idx >= 0 && idx < len(args) {
+					visit(args[idx], depth+1)
+				}
+			}
 		}
 	}
 	for _, b := range s.Fn.Blocks {
